@@ -64,6 +64,12 @@ def gen_shapes(ck, thorough):
             compressed = True if kind in SEGWIT else rng.random() < 0.7
             ins.append({'kind': kind, 'm': m, 'privs': [rng.randrange(1, ref.N) for _ in range(n)], 'compressed': compressed,
                         'with_lock': rng.random() < 0.35, 'no_value': kind in SEGWIT and rng.random() < 0.06,
+                        # the caller names the spent output's address and, beside it, the transaction's default witness type
+                        # (as a wallet does for an output it has no record of): the address says what kind of output it is
+                        'addr_and_default_wt': kind == 'p2pkh' and rng.random() < 0.4,
+                        # the keys of a multisig input are handed over in any order with sort=True (BIP67): the script is
+                        # the one over the sorted keys
+                        'sort': 'multisig' in kind and rng.random() < 0.3,
                         'txid': bytes(rng.randrange(256) for _ in range(32)), 'vout': rng.choice([0, 1, 2, 255, 256, 70000]),
                         'amount': rng.choice(values), 'seq': rng.choice(seqs)})
         outs = []
@@ -123,6 +129,9 @@ def run_shape(job):
             kind = i['kind']
             wt = 'legacy' if kind not in SEGWIT else ('p2sh-segwit' if kind.startswith('p2sh-') else 'segwit')
             common_args = dict(prev_txid=i['txid'], output_n=i['vout'], value=i['amount'], sequence=i['seq'], witness_type=wt)
+            if i.get('sort') and len(ks) > 1:
+                common_args['sort'] = True
+                keyobjs[-1] = ks = sorted(ks, key=lambda k: k.public_byte)       # the order the script has
             if i.get('no_value'):
                 common_args['value'] = 0          # the amount of the spent output is not known to the library
             if i.get('with_lock'):
@@ -135,12 +144,18 @@ def run_shape(job):
                        'p2sh-multisig': b'\xa9\x14' + ref.hash160(ms) + b'\x87', 'p2wsh-multisig': b'\x00\x20' + ref.sha256(ms),
                        'p2sh-p2wsh-multisig': b'\xa9\x14' + ref.hash160(b'\x00\x20' + ref.sha256(ms)) + b'\x87'}[kind]
                 common_args['locking_script'] = spk
+            if i.get('addr_and_default_wt') and anyseg and 'locking_script' not in common_args:
+                common_args['witness_type'] = 'segwit'
+                common_args['address'] = ks[0].address(encoding='base58', script_type='p2pkh')
             if kind in ('p2pkh', 'p2wpkh', 'p2sh-p2wpkh'):
                 t.add_input(keys=ks[0].public(), script_type='sig_pubkey', compressed=i['compressed'], **common_args)
             elif kind == 'p2pk':
                 t.add_input(keys=ks[0].public(), script_type='signature', compressed=i['compressed'], **common_args)
             else:
-                t.add_input(keys=[k.public() for k in ks], script_type='p2sh_multisig', sigs_required=i['m'], **common_args)
+                given = list(ks)
+                if common_args.get('sort'):
+                    random.Random(idx).shuffle(given)         # handed over in another order than the sorted one
+                t.add_input(keys=[k.public() for k in given], script_type='p2sh_multisig', sigs_required=i['m'], **common_args)
         outscripts = []
         for o in sh['outs']:
             k = Key(rng.randrange(1, ref.N), network=net)
